@@ -14,7 +14,9 @@ import (
 	"github.com/relex/slog-agent/transform/tdelfields"
 	"github.com/relex/slog-agent/transform/tdrop"
 	"github.com/relex/slog-agent/transform/tif"
+	"github.com/relex/slog-agent/transform/textract"
 	"github.com/relex/slog-agent/transform/tmapvalue"
+	"github.com/relex/slog-agent/transform/treplace"
 	"github.com/relex/slog-agent/transform/tswitch"
 	"github.com/relex/slog-agent/transform/ttruncate"
 	"github.com/relex/slog-agent/transform/tunescape"
@@ -337,4 +339,92 @@ func VerifC15_UnescapeOnce() {
 	} else {
 		sym.Reach("plain")
 	}
+}
+
+func verifIsDigit(b byte) bool { return b >= '0' && b <= '9' }
+func verifIsLower(b byte) bool { return b >= 'a' && b <= 'z' }
+
+// VerifC15_ReplaceExtract: the regexp-based transforms against a hand-written
+// reference. replace `[0-9]+` -> "N" (and "<$0>") on every value of up to 3 (thorough: 4)
+// bytes: every maximal digit run becomes the replacement, every other byte is
+// kept, an empty field is left alone. extract `^(?P<level>[a-z]+)=(?P<tag>[0-9]*)`
+// on every value of up to 3 (4) bytes: on a match the named captures overwrite
+// their fields (an empty capture clears the field), the source field is
+// untouched, without a match nothing changes. The regexp package itself is
+// executed by the engine (concrete pattern, symbolic input).
+//
+//verif:reach replaced kept matched unmatched
+//verif:paths 200000
+//verif:steps 80000000
+func VerifC15_ReplaceExtract() {
+	maxLen := 3
+	if sym.Tier() > 0 {
+		maxLen = 4
+	}
+	n := sym.Choice("len", maxLen+1)
+	v := sym.String("msg", n, n)
+	if sym.Choice("transform", 2) == 0 {
+		withGroup := sym.Choice("replacement", 2) == 1
+		repl := "N"
+		if withGroup {
+			repl = "<$0>"
+		}
+		cfg := &treplace.Config{Key: "msg", Pattern: "[0-9]+", Replacement: repl}
+		sym.Assert(cfg.VerifyConfig(verifProgSchema) == nil, "configuration accepted")
+		tf := cfg.NewTransform(verifProgSchema, logger.Root(), nil)
+		rec := verifProgSchema.NewTestRecord1(base.LogFields{"a", "l", string(append([]byte{}, v...)), "t"})
+		sym.Assert(tf.Transform(rec) == base.PASS, "replace never drops")
+		var want []byte
+		any := false
+		for i := 0; i < n; {
+			if !verifIsDigit(v[i]) {
+				want = append(want, v[i])
+				i++
+				continue
+			}
+			j := i
+			for j < n && verifIsDigit(v[j]) {
+				j++
+			}
+			if withGroup {
+				want = append(want, '<')
+				want = append(want, v[i:j]...)
+				want = append(want, '>')
+			} else {
+				want = append(want, 'N')
+			}
+			any = true
+			i = j
+		}
+		sym.Assert(rec.Fields[2] == string(want), "every maximal match is replaced and nothing else changes")
+		sym.Assert(rec.Fields[0] == "a" && rec.Fields[1] == "l" && rec.Fields[3] == "t", "replace touches only its own field")
+		if any {
+			sym.Reach("replaced")
+		} else {
+			sym.Reach("kept")
+		}
+		return
+	}
+	cfg := &textract.Config{Key: "msg", Pattern: "^(?P<level>[a-z]+)=(?P<tag>[0-9]*)"}
+	sym.Assert(cfg.VerifyConfig(verifProgSchema) == nil, "configuration accepted")
+	tf := cfg.NewTransform(verifProgSchema, logger.Root(), nil)
+	rec := verifProgSchema.NewTestRecord1(base.LogFields{"a", "old", string(append([]byte{}, v...)), "oldtag"})
+	sym.Assert(tf.Transform(rec) == base.PASS, "extract never drops")
+	i := 0
+	for i < n && verifIsLower(v[i]) {
+		i++
+	}
+	if i > 0 && i < n && v[i] == '=' {
+		j := i + 1
+		for j < n && verifIsDigit(v[j]) {
+			j++
+		}
+		sym.Assert(rec.Fields[1] == v[:i], "first named capture overwrites its field")
+		sym.Assert(rec.Fields[3] == v[i+1:j], "second named capture overwrites its field (empty capture clears it)")
+		sym.Reach("matched")
+	} else {
+		sym.Assert(rec.Fields[1] == "old" && rec.Fields[3] == "oldtag", "without a match nothing changes")
+		sym.Reach("unmatched")
+	}
+	sym.Assert(rec.Fields[0] == "a" && rec.Fields[2] == v, "extract leaves the source field and unrelated fields alone")
 }
